@@ -15,7 +15,7 @@ use crate::verif::drivers::common::{emit_violation, Params, Tally};
 use crate::verif::sha;
 use crate::verif::shim;
 use crate::verif::util::{emit, fnv64, mix, Rng, J};
-use crate::verif::vsys::{Clock, VSys, RULER_DIR};
+use crate::verif::vsys::{Clock, VSys, ruler_dir};
 use crate::verif::world::Violation;
 
 fn ticket(rng : &mut Rng) -> Ticket
@@ -49,8 +49,8 @@ impl<'a> Ctx<'a>
 fn fresh_sys(seed : u64) -> VSys
 {
     let sys = VSys::new(Clock::Distinct, seed);
-    sys.user_mkdirs(&format!("{}/history", RULER_DIR));
-    sys.user_mkdirs(&format!("{}/cache", RULER_DIR));
+    sys.user_mkdirs(&format!("{}/history", ruler_dir()));
+    sys.user_mkdirs(&format!("{}/cache", ruler_dir()));
     { let mut fs = sys.lock(); fs.logging = false; }
     sys
 }
@@ -59,7 +59,7 @@ enum Read<T> { Value(T), Rejected, Panicked(String) }
 
 fn read_history(sys : &VSys, rule : &Ticket) -> Read<RuleHistory>
 {
-    let h = History::new(sys.clone(), &format!("{}/history", RULER_DIR));
+    let h = History::new(sys.clone(), &format!("{}/history", ruler_dir()));
     match catch_unwind(AssertUnwindSafe(|| h.read_rule_history(rule)))
     {
         Ok(Ok(v)) => Read::Value(v),
@@ -70,7 +70,7 @@ fn read_history(sys : &VSys, rule : &Ticket) -> Read<RuleHistory>
 
 fn read_table(sys : &VSys, paths : &Vec<String>) -> Read<Vec<(String, FileState)>>
 {
-    let path = format!("{}/current_file_states", RULER_DIR);
+    let path = format!("{}/current_file_states", ruler_dir());
     match catch_unwind(AssertUnwindSafe(|| CurrentFileStates::from_file(sys.clone(), path.clone())))
     {
         Ok(Ok(mut table)) =>
@@ -100,13 +100,13 @@ fn history_case(ctx : &mut Ctx, rng : &mut Rng, case : u64, small : bool)
     }
     let rule = ticket(rng);
     let sys = fresh_sys(rng.next_u64());
-    let mut writer = History::new(sys.clone(), &format!("{}/history", RULER_DIR));
+    let mut writer = History::new(sys.clone(), &format!("{}/history", ruler_dir()));
     if writer.write_rule_history(rule.clone(), rh.clone()).is_err()
     {
         ctx.violation(case, "history-write-failed", "writing a rule history failed".to_string(), J::Null);
         return;
     }
-    let file = format!("{}/history/{}", RULER_DIR, rule.human_readable());
+    let file = format!("{}/history/{}", ruler_dir(), rule.human_readable());
     let image = match sys.read_file(&file) { Some(b) => b, None => { ctx.violation(case, "history-file-not-at-expected-name", format!("no file {}", file), J::Null); return; } };
 
     // round trip on a fresh handle
@@ -188,7 +188,7 @@ fn table_case(ctx : &mut Ctx, rng : &mut Rng, case : u64, small : bool)
 {
     let entries = if small { rng.below(3) } else { rng.below(51) };
     let sys = fresh_sys(rng.next_u64());
-    let path = format!("{}/current_file_states", RULER_DIR);
+    let path = format!("{}/current_file_states", ruler_dir());
     let mut table = match CurrentFileStates::from_file(sys.clone(), path.clone())
     {
         Ok(t) => t,
